@@ -1,3 +1,4 @@
+@classmethod
 def spec(cls, reducer, train_update=True, eval_update=True, prepend=False, filter_=None, map_=None):
 
     def constructor(attr: str, module: Module):
